@@ -26,7 +26,7 @@
    these the correspondence + crash oracle cover.
    Concurrency: model functions are pure; data races are runtime behaviour outside the model. *)
 From Sipsp Require Import Harness RunLemmas Safe SafeLeaf SafeMore SafeMsg Again SafeURI CapURI Resume Classify URIOffsets URIViews URILossless
-  Layout SigCoherent LowerBound UpperBound SigTotal.
+  Layout SigCoherent LowerBound UpperBound SigTotal CmpLaws CmpLists CmpTotal.
 Theorem C04_safety_rule : forall (St : Type) (iter : list byte -> list byte -> N -> St -> ires St)
   (P : list byte -> list byte -> N -> St -> Prop) (Q : list byte -> list byte -> N -> N -> err -> St -> Prop),
   (forall pre rest i s, P pre rest i s ->
@@ -219,3 +219,16 @@ Theorem C04_signature_total : forall cs ss vs flags buf offs L nh nc o m', offs 
 Proof. exact gsig_total. Qed.
 Print Assumptions C04_parsed_message_fields_in_buffer.
 Print Assumptions C04_signature_total.
+
+(* ---- the comparison entry points never panic ----------------------------------------------------------------------------------- *)
+Theorem C04_uri_parse_cmp_total : forall raw1 raw2 f, uri_parse_cmp raw1 raw2 f <> None.
+Proof. exact uri_parse_cmp_total. Qed.
+Theorem C04_uri_cmp_total : forall raw1 raw2 o1 o2 u1 u2 f,
+  parse_uri raw1 puri0 = Some (NoURIErr, o1, u1) -> parse_uri raw2 puri0 = Some (NoURIErr, o2, u2) ->
+  uri_cmp u1 raw1 u2 raw2 f <> None.
+Proof. exact (fun raw1 raw2 o1 o2 u1 u2 f H1 H2 => uri_cmp_total u1 raw1 u2 raw2 f (accepted_uri_in _ _ _ H1) (accepted_uri_in _ _ _ H2)). Qed.
+Theorem C04_uri_list_eq_total : forall b1 o1 b2 o2, o1 <= nnat (length b1) -> o2 <= nnat (length b2) ->
+  uri_params_eq b1 o1 b2 o2 <> None /\ uri_hdrs_eq b1 o1 b2 o2 <> None.
+Proof. exact (fun b1 o1 b2 o2 H1 H2 => conj (params_eq_total b1 o1 b2 o2 H1 H2) (hdrs_eq_total b1 o1 b2 o2 H1 H2)). Qed.
+Print Assumptions C04_uri_parse_cmp_total.
+Print Assumptions C04_uri_cmp_total.
